@@ -1,3 +1,4 @@
+pub mod c06;
 pub mod c07;
 pub mod c10;
 pub mod c11;
@@ -7,5 +8,5 @@ pub mod c19;
 use crate::prop::Property;
 
 pub fn all() -> Vec<Box<dyn Property>> {
-    vec![Box::new(c07::C07), Box::new(c10::C10), Box::new(c11::C11), Box::new(c12::C12), Box::new(c19::C19)]
+    vec![Box::new(c06::C06), Box::new(c07::C07), Box::new(c10::C10), Box::new(c11::C11), Box::new(c12::C12), Box::new(c19::C19)]
 }
